@@ -365,6 +365,7 @@ func (e *Engine) execMapUpdate(s *State, fr *Frame, x *ssa.MapUpdate) {
 	s.assume(nn)
 	e.applyMapUpdateAnchors(s, fr, x, k, v)
 	e.mapLenFacts(s, mt, m, k) // models_coord.go: len >= 0, key present ==> len >= 1
+	e.rangeAliasCheck(s, fr, x, m) // models_coord.go: not the map being ranged over
 	domH, valH, lenH, dk, vk, lk := e.mapParts(s, mt)
 	dom := Select(domH, m)
 	had := Select(dom, k)
